@@ -40,6 +40,7 @@ func C05(r *core.Run) {
 	optionsEverywhere(r)
 	scalarValueGuard(r)
 	elementKinds(r)
+	lessLocated(r)
 	labelIndependence(r)
 	refNameKeepsLast(r)
 	presentNeverSkipped(r, printRel+"/optionreflect", "walkOptionMessage", "every populated option field is printed")
@@ -391,4 +392,52 @@ func refNameKeepsLast(r *core.Run) {
 	r.Floor("R-FLOW/refname", 1, "re-slices of the joined path in contextRefName")
 	_ = types.Universe
 	_ = n
+}
+
+// lessLocated (R-DET/located): descriptors compiled from j5s carry source
+// locations only for the elements that have comments; the others report
+// StartLine 0. The element order therefore may come from line numbers only
+// when both elements have one — otherwise every unlocated element sorts before
+// every located one, enum values and messages are printed out of descriptor
+// order and the text no longer re-parses to the same descriptor.
+func lessLocated(r *core.Run) {
+	r.Rule("R-DET/located", "in sourceElements.Less every return that orders two elements by comparing their StartLine is reached only where both StartLine values are known to be non-zero (enclosing conditions and earlier returning ifs); unlocated elements fall back to type order and descriptor index")
+	fd, pk := r.P.FuncDecl(printRel, "sourceElements.Less")
+	if fd == nil {
+		r.Fatal("anchor: protoprint.sourceElements.Less not found")
+		return
+	}
+	info := pk.TypesInfo
+	isStartLine := func(e ast.Expr) bool {
+		s, ok := core.Unparen(e).(*ast.SelectorExpr)
+		return ok && s.Sel.Name == "StartLine"
+	}
+	n := 0
+	ast.Inspect(fd.Body, func(nd ast.Node) bool {
+		ret, ok := nd.(*ast.ReturnStmt)
+		if !ok || len(ret.Results) != 1 {
+			return true
+		}
+		b, ok := core.Unparen(ret.Results[0]).(*ast.BinaryExpr)
+		if !ok || !isStartLine(b.X) || !isStartLine(b.Y) {
+			return true
+		}
+		n++
+		o := r.Add("R-DET/located", "protoprint.sourceElements.Less | return "+core.NormExpr(info, b), ret.Pos(), "order by line number")
+		f := rules.FactsAt(info, fd.Body, ret)
+		var missing []string
+		for _, e := range []ast.Expr{b.X, b.Y} {
+			s := core.ExprStr(core.Unparen(e))
+			if !(f.False[s+" == 0"] || f.True[s+" != 0"] || f.True[s+" > 0"] || f.MinVal[s] >= 1) {
+				missing = append(missing, s)
+			}
+		}
+		if len(missing) == 0 {
+			o.Auto("both line numbers are known to be set here")
+		} else {
+			o.Fail("%s may be 0 (no source location) where the line numbers decide the order: unlocated elements then sort before all located ones instead of staying in descriptor order", strings.Join(missing, " and "))
+		}
+		return true
+	})
+	r.Floor("R-DET/located", 1, "the line-number comparison of Less")
 }
